@@ -133,30 +133,27 @@ def k_point(tau):
     return lambda w: np.exp(-1j * w * tau)
 
 
-# imaginary time (Matsubara), beta = 1/T:  D(tau) = int J [e^{-w tau} + e^{-w(beta-tau)}] / (1 - e^{-beta w})
+# imaginary time (Matsubara), beta = 1/T:  D(tau) = int J [e^{-w tau} + e^{-w(beta-tau)}] / (1 - e^{-beta w}).
+# Kernels return the two terms separately: (forward e^{-w tau} part, backward e^{-w(beta-tau)} part), both without
+# the common factor 1/(1 - e^{-beta w}).
 def km_point(tau, beta):
-    return lambda w: (np.exp(-w * tau) + np.exp(-w * (beta - tau))) / (-np.expm1(-beta * w))
+    return lambda w: (np.exp(-w * tau), np.exp(-w * (beta - tau)))
 
 
 def km_rect(a, b, delta, beta):
     """t' in [a,b], t'' in [0,D], a >= D, b <= beta."""
     def k(w):
-        f1 = -np.expm1(-w * (b - a)) / w     # int_a^b e^{-w t'} = e^{-w a} f1
-        f2 = -np.expm1(-w * delta) / w       # int_0^D e^{+w t''} = e^{w D} f2 ; int_0^D e^{-w t''} = f2
-        return f1 * f2 * (np.exp(-w * (a - delta)) + np.exp(-w * (beta - b))) / (-np.expm1(-beta * w))
+        f1 = -np.expm1(-w * (b - a)) / w     # int_a^b e^{-w t'} dt' = e^{-w a} f1 ; int_a^b e^{w t'} dt' = e^{w b} f1
+        f2 = -np.expm1(-w * delta) / w       # int_0^D e^{w t''} dt'' = e^{w D} f2 ; int_0^D e^{-w t''} dt'' = f2
+        return f1 * f2 * np.exp(-w * (a - delta)), f1 * f2 * np.exp(-w * (beta - b))
     return k
 
 
 def km_tri(delta, beta):
+    """int_0^D (D-s) e^{-ws} ds = D^2 h(wD);  int_0^D (D-s) e^{-w(beta-s)} ds = e^{-w(beta-D)} D^2 h2(wD)."""
     def k(w):
         x = w * delta
-        # int_0^D (D-s) e^{-ws} ds = D^2 h(x);  int_0^D (D-s) e^{-w(beta-s)} ds = e^{-w(beta-D)} D^2 h~(x),
-        # h~(x) = int_0^1 (1-r) e^{-x(1-r)} ... = (1 - (1+x) e^{-x}) / x^2 ... written via h:
-        # int_0^D (D-s) e^{ws} ds = (e^{x} - 1 - x)/w^2  ->  e^{-w beta} * that = e^{-w(beta-D)} (1 - e^{-x} - x e^{-x})/w^2
-        hx = h_fun(x)
-        # (1 - e^{-x} - x e^{-x})/x^2 = (1 - e^{-x})/x * ... use identity: = h(x)*... computed stably:
-        second = _h2(x)
-        return delta ** 2 * (hx + np.exp(-w * (beta - delta)) * second) / (-np.expm1(-beta * w))
+        return delta ** 2 * h_fun(x), delta ** 2 * np.exp(-w * (beta - delta)) * _h2(x)
     return k
 
 
@@ -210,9 +207,46 @@ class Spectrum:
     def _once(self, kern, p, imaginary_time):
         w, jw, jwc = self.grid(p)
         k = kern(w)
-        if imaginary_time:
-            return float(np.sum(jw * k.real))
         return complex(np.sum(jwc * k.real), np.sum(jw * k.imag))
+
+    def _range_m(self, kern, ua, ub, mode):
+        """imaginary-time integrand over u in [ua, ub]; mode 'full' or 'fwd' (forward term only, no Bose denominator)."""
+        x, wt = gl(self.order)
+
+        def once(p):
+            edges = np.linspace(ua, ub, p + 1)
+            mid = 0.5 * (edges[1:] + edges[:-1])
+            half = 0.5 * (edges[1:] - edges[:-1])
+            u = (mid[:, None] + half[:, None] * x[None, :]).ravel()
+            wu = (half[:, None] * wt[None, :]).ravel()
+            w = u ** self.m
+            jw = self.jf(w) * self.cut(w) * self.m * u ** (self.m - 1) * wu
+            fwd, bwd = kern(w)
+            val = fwd if mode == "fwd" else (fwd + bwd) / (-np.expm1(-w / self.temp))
+            return float(np.sum(jw * val))
+
+        p = self.p0 * 2
+        prev = once(p)
+        while True:
+            p *= 2
+            cur = once(p)
+            err = abs(cur - prev)
+            if err <= self.rtol * abs(cur) + 1e-300 or p >= self.pmax:
+                return cur, err
+            prev = cur
+
+    def integrate_m(self, kern, drop_above=None):
+        """imaginary time.  drop_above = w0 reproduces a guard that keeps only the forward term (and no Bose
+        denominator) for w > w0; the integral is split at w0 exactly."""
+        wmax = self.umax ** self.m
+        if drop_above is None or drop_above >= wmax:
+            val, err = self._range_m(kern, 0.0, self.umax, "full")
+            self.worst_selfcheck = max(self.worst_selfcheck, err / (abs(val) + 1e-300))
+            return val
+        u0 = drop_above ** (1.0 / self.m)
+        v1, e1 = self._range_m(kern, 0.0, u0, "full")
+        v2, e2 = self._range_m(kern, u0, self.umax, "fwd")
+        return v1 + v2
 
     def integrate(self, kern, imaginary_time=False, tmax=1.0):
         # enough panels to resolve cos(u^m t): local frequency m u^(m-1) t
@@ -220,6 +254,8 @@ class Spectrum:
         need = int(self.m * self.umax ** self.m * max(tmax, 1e-9) / 6.0) + 1
         while p < need:
             p *= 2
+        if imaginary_time:
+            raise ValueError("use integrate_m")
         prev = self._once(kern, p, imaginary_time)
         while True:
             p *= 2
